@@ -118,15 +118,24 @@ func c31GenPCol(t *rapid.T, name string, n int, c *c31Case) *c31PCol {
 				col.U[i] = rapid.Uint64Range(0, max).Draw(t, "u")
 			}
 			if col.U[i] > math.MaxInt64 {
-				if verifkit.Excluded("C31-uint64-wraps-negative") {
-					verifkit.CountExcluded("C31-uint64-wraps-negative")
-					col.U[i] >>= 1
-				} else if !col.Null[i] {
+				col.U[i] >>= 1 // keep ordinary cells representable; the overflow is injected below
+			}
+			col.Want[i] = "i:" + strconv.FormatUint(col.U[i], 10)
+		}
+		if bits == 64 && c31Chance(t, "u64overflow", 30) {
+			// one value above MaxInt64 at a uniformly chosen row (so that it also
+			// falls into a later row group / record batch, not only the first)
+			if verifkit.Excluded("C31-uint64-wraps-negative") {
+				verifkit.CountExcluded("C31-uint64-wraps-negative")
+			} else {
+				i := c31Uniform(t, "u64row", n)
+				col.U[i] = c31Pick(t, "u64big", uint64(math.MaxUint64), uint64(1)<<63, uint64(1)<<63+12345)
+				col.Want[i] = "i:" + strconv.FormatUint(col.U[i], 10)
+				if !col.Null[i] {
 					col.Reject = fmt.Sprintf("uint64 value %d has no lossless int64 representation", col.U[i])
 					c.class("pq:uint64-above-maxint64")
 				}
 			}
-			col.Want[i] = "i:" + strconv.FormatUint(col.U[i], 10)
 		}
 	case "float32":
 		col.Type = arrow.PrimitiveTypes.Float32
@@ -407,7 +416,7 @@ func c31GenPTimeCol(t *rapid.T, name string, n int, c *c31Case) (*c31PCol, strin
 			want[i], _ = c31UnitFloat(f, param)
 		}
 		if c31Chance(t, "pnan", 5) {
-			col.F[rapid.IntRange(0, n-1).Draw(t, "pnanrow")] = math.NaN()
+			col.F[c31Uniform(t, "pnanrow", n)] = math.NaN()
 			reject = "NaN in time column"
 		}
 	case "string", "binary":
@@ -479,8 +488,8 @@ func c31GenPTimeCol(t *rapid.T, name string, n int, c *c31Case) (*c31PCol, strin
 			}
 		}
 	}
-	if c31Chance(t, "pnulltime", 4) {
-		col.Null[rapid.IntRange(0, n-1).Draw(t, "pnullrow")] = true
+	if c31Chance(t, "pnulltime", 8) {
+		col.Null[c31Uniform(t, "pnullrow", n)] = true
 		reject = "null in time column"
 		c.class("pqtime:null")
 	}
@@ -538,9 +547,12 @@ func c31GenParquet(t *rapid.T) *c31Case {
 	}
 	schema := arrow.NewSchema(fields, nil)
 	nbatches := rapid.IntRange(1, 3).Draw(t, "nbatches")
-	rgLen := int64(c31Pick(t, "rowgroup", 1<<20, 1<<20, 1, 3, 7))
+	rgLen := []int64{1 << 20, 1 << 20, 1, 2, 3, 5, 7, 16}[c31Uniform(t, "rowgroup", 8)]
 	if nbatches > 1 || rgLen < int64(nrows) {
 		c.class("pq:multi-chunk")
+	}
+	if rgLen < int64(nrows) {
+		c.class("pq:multi-rowgroup")
 	}
 	wopts := []parquet.WriterProperty{
 		parquet.WithMaxRowGroupLength(rgLen),
